@@ -116,7 +116,26 @@ def _moved(prog, g, known):
     if g.skey.startswith("<"):
         return False
     c = idx.get((g.crate, g.skey.rsplit("::", 1)[-1]), [])
-    return len(c) == 1 and not prog.by_skey.get(c[0])
+    if len(c) == 1 and not prog.by_skey.get(c[0]):
+        return True
+    # renamed in place: in g's own impl / module exactly one function of the table has vanished and g is the only new function there
+    ren = getattr(prog, "_renamed_in_place", None)
+    if ren is None:
+        ren = {}
+        by_prefix_known, by_prefix_new = {}, {}
+        for k in known:
+            if not k.startswith("<") and "::" in k:
+                by_prefix_known.setdefault(k.rsplit("::", 1)[0], []).append(k)
+        for h in prog.fns.values():
+            if "{closure" in h.key or h.skey.startswith("<") or "::" not in h.skey or h.skey in known:
+                continue
+            by_prefix_new.setdefault(h.skey.rsplit("::", 1)[0], []).append(h.skey)
+        for pre, news in by_prefix_new.items():
+            gone = [k for k in by_prefix_known.get(pre, []) if not prog.by_skey.get(k)]
+            if len(set(news)) == 1 and len(gone) == 1:
+                ren[news[0]] = gone[0]
+        prog._renamed_in_place = ren
+    return g.skey in ren
 
 
 def candidates(prog, f, keep=None):
